@@ -23,7 +23,7 @@ RULE_T = ('Model-based histories: a pool of %d fixed module configurations (ever
         'requires_grad+backward), a call with an input of the other precision (outcome ignored), concurrent batch of 2..8 calls on a thread pool (same or different instances), load of a filter '
         'table, lossless dtype round trip of an instance, call of an instance built in the other precision, drop(instance). '
         'Invariants after every step: arguments and coefficient lists bitwise unchanged (same list, same element identities); '
-        'result bitwise equal to the golden; module buffers/parameters bitwise unchanged. The interpreter running a shard is never '
+        'result bitwise equal to the golden; module buffers/parameters bitwise unchanged; tensors returned by the last three calls still hold their values. The interpreter running a shard is never '
         'restarted, so state also carries over between histories. Non-trivial history = >= 2 different shapes through one '
         'instance and >= 2 configurations interleaved. Distinct = operation sequence.')
 ASSUMPTIONS = ['CPU kernels are bitwise deterministic across processes and threads (measured); a mismatch within 4 ulp is counted '
@@ -217,6 +217,9 @@ def run_case(case):
     own = [tuple(o) for o in case['own']]
     insts = []
     used_cfgs = set()
+    kept = []
+    import threading
+    keep_lock = threading.Lock()
 
     def build(oi, dtype):
         ci, ii = own[oi]
@@ -269,6 +272,16 @@ def run_case(case):
         used_cfgs.add(ci)
         if not _same(outs, gold, r, what):
             return False
+        # results returned earlier must not be touched by later calls (no recycled output buffers)
+        with keep_lock:
+            for (w_, ts_, copies_) in list(kept):
+                for t_, c_ in zip(ts_, copies_):
+                    if not torch.equal(t_.detach(), c_):
+                        r.fail('earlier_result_overwritten', 'a tensor returned by %s was modified by %s' % (w_, what))
+                        return False
+            kept.append((what, [t.detach() for t in outs], [t.detach().clone() for t in outs]))
+            if len(kept) > 3:
+                kept.pop(0)
         if inst.snap is not None and not inst.converted:
             now = inst.m.state_dict()
             for k, v in inst.snap.items():
